@@ -96,7 +96,7 @@ _m("C05",
    "the safe interface), initial counts 0..8, rate constants in [0.05,5], grids of 2..6 points in three regimes "
    "(many events per step, several points between events, mixed).  N1 seeded consecutive SSA paths (10k quick / 40k "
    "thorough; model-API surface 1/20 of that) are compared with the master equation solved on the enumerated "
-   "state space (expm): pooled chi-square on every time-point marginal and every consecutive two-time joint, "
+   "state space (exp(Q t) by uniformisation and squaring, vf/cme.py): pooled chi-square on every time-point marginal and every consecutive two-time joint, "
    "two-stage confirmation (p < 1e-4/m then 10x samples p < 1e-9/m); a reported state outside the reachable set is "
    "an exact failure.  Non-trivial: >= 2 reactions and >= 2 states with probability > 5% at some reported time.",
    _COMMON + ["statistical power: a relative bias of ~5% in cells of probability >= 0.1 is rejected; smaller biases pass",
